@@ -1,6 +1,7 @@
 import Kopf.Drv.Json
 import Kopf.Model.C04_Diff
 import Kopf.Model.C04_Essence
+import Kopf.Model.C04_Cycle
 open Lean
 namespace Kopf.Drv.C04
 open Kopf.C04
@@ -125,6 +126,28 @@ def handle : DrvHandler := fun op args =>
       match ← toJ b, ← toJ pa with
       | .obj bk, .obj pk => some (ok (ofJ (.obj (storeMarker pfx bk pk))))
       | _, _ => none
+  | "C04.detect", [o, n] => do
+      -- the cause decided from the two essences; `null` as old = nothing stored
+      let o ← toJ o
+      let n ← toJ n
+      let r := detect (match o with | .null => none | o => some o) n
+      some (ok (.str (match r with | .create => "create" | .update => "update" | .noop => "noop")))
+  | "C04.selected", [o, n, f] => do
+      let o ← toJ o
+      let n ← toJ n
+      let f ← jStrList? f
+      some (ok (.bool (selected o n f)))
+  | "C04.after", [o, n] => do
+      -- the stored last-handled state after a finished cycle
+      let o ← toJ o
+      let n ← toJ n
+      some (ok (match afterCycle (match o with | .null => none | o => some o) n with
+        | some e => ofJ e
+        | none => .null))
+  | "C04.pyeq", [a, b] => do
+      let a ← toJ a
+      let b ← toJ b
+      some (ok (.bool (pyEq a b)))
   | "C04.consts", [] =>
       some (ok (Json.mkObj [("markers", .arr (knownMarkers.map Json.str).toArray),
                             ("prefixes", .arr (knownPrefixes.map Json.str).toArray),
